@@ -53,8 +53,10 @@ func vC20Retention(nOps int, pattern bool) {
 		sopts["match"] = cfgMatch
 	}
 	for k := 0; k < nOps; k++ {
+		published := false
 		switch vChoice("op", 6) {
 		case 0, 1: // plain publication (twice as likely)
+			published = true
 			arg := vInt64("pub.arg")
 			b.publish(pub.s, &wamp.Publish{Request: wamp.ID(100 + k), Topic: "h.t", Options: wamp.Dict{"acknowledge": true}, Arguments: wamp.List{arg}})
 			vSyncBroker(b)
@@ -64,6 +66,7 @@ func vC20Retention(nOps int, pattern bool) {
 				}
 			}
 		case 2: // publication restricted to particular receivers: never retained
+			published = true
 			o := wamp.Dict{"acknowledge": true}
 			if vBool("restricted.byExclude") {
 				o["exclude"] = wamp.List{wamp.ID(83)}
@@ -92,7 +95,19 @@ func vC20Retention(nOps int, pattern bool) {
 			vSyncBroker(b)
 			s1sub = false
 		}
-		s1.vDrain()
+		// live delivery next to retention: a publication reaches s1 exactly while it is subscribed
+		nEv := 0
+		for _, m := range s1.vDrain() {
+			if e, ok := m.(*wamp.Event); ok {
+				nEv++
+				vAssert("event-carries-history-subscription-id", e.Subscription == subID)
+			}
+		}
+		if published {
+			vAssert("event-delivered-iff-currently-subscribed", (nEv == 1) == s1sub && nEv <= 1)
+		} else {
+			vAssert("no-event-without-publication", nEv == 0)
+		}
 		s2.vDrain()
 	}
 
